@@ -24,10 +24,15 @@ import importlib
 import io
 import json
 import logging
+import mmap
 import multiprocessing
 import os
+import pickle
+import shutil
 import signal
+import struct
 import sys
+import tempfile
 import time
 import traceback
 
@@ -68,8 +73,58 @@ def case_hash(key):
                         digest_size=8).digest(), 'big')
 
 
+class Heartbeat:
+    """Shared file through which a worker tells the parent which case it is
+    executing, so a case that never returns (e.g. an unbounded big-integer
+    power or an iteration that never stops) is reported with its input
+    instead of ending the run as inconclusive."""
+    SIZE = 1 << 20
+
+    def __init__(self, path):
+        self.path = path
+        new = not os.path.exists(path)
+        self.f = open(path, 'w+b' if new else 'r+b')
+        if new:
+            self.f.truncate(self.SIZE)
+        self.mm = mmap.mmap(self.f.fileno(), self.SIZE)
+
+    def begin(self, klass, case, limit):
+        payload = jdump(dict(klass=klass, case=case, limit=limit)).encode()
+        if len(payload) > self.SIZE - 16:
+            payload = jdump(dict(klass=klass, case='<too large>',
+                                 limit=limit)).encode()
+        self.mm[16:16 + len(payload)] = payload
+        struct.pack_into('<dI', self.mm, 0, time.time(), len(payload))
+
+    def end(self):
+        struct.pack_into('<d', self.mm, 0, 0.0)
+
+    def read(self):
+        start, n = struct.unpack_from('<dI', self.mm, 0)
+        if not start:
+            return 0.0, None
+        try:
+            return start, json.loads(bytes(self.mm[16:16 + n]))
+        except ValueError:
+            return 0.0, None
+
+
 class Recorder:
     """Collects what a shard did; merged by the parent process"""
+    hb = None
+
+    @contextlib.contextmanager
+    def watch(self, klass, case, limit=120):
+        """Mark `case` as running; the parent reports it under failure class
+        `klass` if it is still running after `limit` seconds."""
+        if self.hb is None:
+            yield
+            return
+        self.hb.begin(klass, case, limit)
+        try:
+            yield
+        finally:
+            self.hb.end()
 
     def __init__(self, tier='quick', seed=1, open_patterns=()):
         self.tier = tier
@@ -184,20 +239,79 @@ def _quiet():
     logging.getLogger('pycel').addHandler(logging.NullHandler())
 
 
-def _shard_worker(args):
-    mod_name, shard, tier, seed, open_patterns = args
+def _task_worker(task, hb_path, res_path):
+    """Runs in a forked child: one shard or one replay file"""
+    kind, mod_name, payload, tier, seed, open_patterns = task
     _quiet()
-    mod = importlib.import_module(mod_name)
-    rec = Recorder(tier, seed, open_patterns)
-    out = io.StringIO()
+    signal.signal(signal.SIGALRM, signal.SIG_DFL)
+    result = None
     try:
-        with contextlib.redirect_stdout(out):
-            mod.run_shard(shard, rec)
+        mod = importlib.import_module(mod_name)
+        rec = Recorder(tier, seed, open_patterns if kind == 'shard' else ())
+        rec.hb = Heartbeat(hb_path)
+        with contextlib.redirect_stdout(io.StringIO()):
+            if kind == 'shard':
+                mod.run_shard(payload, rec)
+            else:
+                with open(payload) as f:
+                    data = json.load(f)
+                with rec.watch('hang:replay', data['case']):
+                    mod.replay(data['case'], rec)
+        result = ('ok', None, rec.export())
     except HarnessError as exc:
-        return ('harness', f'{shard}: {exc}', None)
+        result = ('harness', f'{payload}: {exc}', None)
     except BaseException:
-        return ('harness', f'{shard}:\n{traceback.format_exc()}', None)
-    return ('ok', None, rec.export())
+        result = ('harness', f'{payload}:\n{traceback.format_exc()}', None)
+    with open(res_path, 'wb') as f:
+        pickle.dump(result, f)
+    sys.stdout.flush()
+    os._exit(0)
+
+
+def run_tasks(tasks, jobs):
+    """Run tasks in forked children (at most `jobs` at a time), watching
+    their heartbeats.  Returns one result per task:
+    ('ok', None, exported) | ('harness', msg, None) | ('hang', info, None)"""
+    tmp = tempfile.mkdtemp(prefix='pv-run-')
+    ctx = multiprocessing.get_context('fork')
+    pending = list(enumerate(tasks))[::-1]
+    running = {}
+    results = [None] * len(tasks)
+    try:
+        while pending or running:
+            while pending and len(running) < jobs:
+                i, task = pending.pop()
+                hb_path = os.path.join(tmp, f'hb-{i}')
+                res_path = os.path.join(tmp, f'res-{i}')
+                hb = Heartbeat(hb_path)
+                proc = ctx.Process(target=_task_worker,
+                                   args=(task, hb_path, res_path))
+                proc.start()
+                running[i] = (proc, hb, res_path)
+            time.sleep(0.02)
+            for i, (proc, hb, res_path) in list(running.items()):
+                if not proc.is_alive():
+                    proc.join()
+                    if os.path.exists(res_path):
+                        with open(res_path, 'rb') as f:
+                            results[i] = pickle.load(f)
+                    else:
+                        results[i] = (
+                            'harness', f'worker for {tasks[i][2]} died with '
+                            f'exit code {proc.exitcode}', None)
+                    del running[i]
+                    continue
+                start, info = hb.read()
+                if info and time.time() - start > info.get('limit', 120):
+                    proc.kill()
+                    proc.join()
+                    results[i] = ('hang', info, None)
+                    del running[i]
+    finally:
+        for proc, hb, res_path in running.values():
+            proc.kill()
+        shutil.rmtree(tmp, ignore_errors=True)
+    return results
 
 
 def run(prop_id, tier, seed, replay_file=None, jobs=None):
@@ -205,6 +319,10 @@ def run(prop_id, tier, seed, replay_file=None, jobs=None):
     _quiet()
     mod_name = f'props.{prop_id.lower()}'
     mod = importlib.import_module(mod_name)
+    # import pycel once in the parent so forked workers share it
+    import pycel.excelcompiler  # noqa: F401
+    for m in pycel.excelformula.ExcelFormula.default_modules:
+        importlib.import_module(m)
     known = load_known(prop_id)
     open_entries = [e for e in known if e['status'] == 'open']
     open_patterns = [p for e in open_entries for p in e.get('class_keys', [])]
@@ -228,39 +346,45 @@ def run(prop_id, tier, seed, replay_file=None, jobs=None):
         replay_files = sorted(
             os.path.join(replay_dir, f) for f in os.listdir(replay_dir)
             if f.endswith('.json')) if os.path.isdir(replay_dir) else []
-    n_replays = 0
-    for path in replay_files:
-        with open(path) as f:
-            data = json.load(f)
-        r = Recorder(tier, seed, ())
-        with contextlib.redirect_stdout(io.StringIO()):
-            mod.replay(data['case'], r)
-        n_replays += 1
+    jobs = jobs or int(os.environ.get('VERIF_JOBS', '16'))
+    n_replays = len(replay_files)
+    tasks = [('replay', mod_name, path, tier, seed, ()) for path in replay_files]
+    for path, (status, info, exported) in zip(
+            replay_files, run_tasks(tasks, jobs)):
         rel = os.path.relpath(path, ROOT)
-        for klass, (size, case, msg) in r.failures.items():
+        if status == 'harness':
+            raise HarnessError(info)
+        if status == 'hang':
+            failures = {info['klass']: (
+                0, info['case'],
+                f'did not finish within {info["limit"]} s')}
+        else:
+            failures = exported['failures']
+            rec.labels['replay_evaluations'] += exported['evaluations']
+        for klass, (size, case, msg) in failures.items():
             entry = classify(klass)
             if entry is not None:
                 known_hit[entry['id']] += 1
             else:
                 violations.append((klass, case, msg, rel))
         rec.labels['replay_files'] += 1
-        rec.labels['replay_evaluations'] += r.evaluations
 
     # -- 2. generated search
     if not replay_file:
         shards = mod.shards(tier, seed)
-        jobs = jobs or int(os.environ.get('VERIF_JOBS', '16'))
-        work = [(mod_name, s, tier, seed, open_patterns) for s in shards]
-        if jobs == 1 or len(work) == 1:
-            results = [_shard_worker(w) for w in work]
-        else:
-            ctx = multiprocessing.get_context('fork')
-            with ctx.Pool(min(jobs, len(work))) as pool:
-                results = pool.map(_shard_worker, work, chunksize=1)
-        for status, err, exported in results:
-            if status != 'ok':
-                raise HarnessError(err)
-            rec.merge(exported)
+        tasks = [('shard', mod_name, sh, tier, seed, open_patterns)
+                 for sh in shards]
+        for shard, (status, info, exported) in zip(
+                shards, run_tasks(tasks, jobs)):
+            if status == 'harness':
+                raise HarnessError(info)
+            if status == 'hang':
+                rec.fail(info['klass'], info['case'],
+                         f'did not finish within {info["limit"]} s '
+                         f'(worker killed, rest of shard {shard} not run)')
+                rec.note(f'shard {shard} cut short by a hanging case')
+            else:
+                rec.merge(exported)
 
         for klass, (size, case, msg) in sorted(rec.failures.items()):
             entry = classify(klass)
